@@ -1,2 +1,69 @@
-(* C07 -- theorems are being added *)
-From ZK Require Import Laws.
+(* C07 -- fresh blinding.  What a theorem carries: HOW the draws are used.  The witness holder's recomputation of the
+   blinding scalars returns exactly the draws (so distinct / non-zero recomputed blindings are distinct / non-zero draws);
+   reusing the draws under two challenges reveals e and every hidden message (why reuse is fatal).  That thread_rng
+   delivers fresh independent values is observed by the runtime monitor, not proved. *)
+From ZK Require Import Laws BaseLemmas ModelLemmas SignProofs Codec Soundness.
+
+Theorem C07_blinding_recompute :
+  forall (E : env) (LW : Laws E) ir ch e rho um p,
+  proof_finalize E ir ch e rho um = Ok p -> length rho = (5 + length um)%nat ->
+  fsub (SO E) (p_e_cap E p) (fmul (SO E) e ch) = nth 2 rho (f0 (SO E)) /\
+  fadd (SO E) (p_r1_cap E p) (fmul (SO E) (nth 0 rho (f0 (SO E))) ch) = nth 3 rho (f0 (SO E)) /\
+  fadd (SO E) (p_r3_cap E p) (fmul (SO E) (finv (SO E) (nth 1 rho (f0 (SO E)))) ch) = nth 4 rho (f0 (SO E)) /\
+  unblind E ch (p_m_cap E p) um = sub rho 5 (5 + length um) /\
+  p_chal E p = ch.
+Proof. exact blinding_recompute. Qed.
+Check (C07_blinding_recompute :
+  forall (E : env) (LW : Laws E) ir ch e rho um p,
+  proof_finalize E ir ch e rho um = Ok p -> length rho = (5 + length um)%nat ->
+  fsub (SO E) (p_e_cap E p) (fmul (SO E) e ch) = nth 2 rho (f0 (SO E)) /\
+  fadd (SO E) (p_r1_cap E p) (fmul (SO E) (nth 0 rho (f0 (SO E))) ch) = nth 3 rho (f0 (SO E)) /\
+  fadd (SO E) (p_r3_cap E p) (fmul (SO E) (finv (SO E) (nth 1 rho (f0 (SO E)))) ch) = nth 4 rho (f0 (SO E)) /\
+  unblind E ch (p_m_cap E p) um = sub rho 5 (5 + length um) /\
+  p_chal E p = ch).
+Print Assumptions C07_blinding_recompute.
+
+Theorem C07_commit_blinding_recompute :
+  forall (E : env) (LW : Laws E) bg cms api rho x spb,
+  core_commit E bg cms api rho = Ok (x, spb) ->
+  let z := cm_proof E x in
+  spb = nth 0 rho (f0 (SO E)) /\
+  fsub (SO E) (z_s_cap E z) (fmul (SO E) spb (z_chal E z)) = nth 1 rho (f0 (SO E)) /\
+  unblind E (z_chal E z) (z_m_cap E z) cms = sub rho 2 (length cms + 2).
+Proof. exact commit_blinding_recompute. Qed.
+Check (C07_commit_blinding_recompute :
+  forall (E : env) (LW : Laws E) bg cms api rho x spb,
+  core_commit E bg cms api rho = Ok (x, spb) ->
+  let z := cm_proof E x in
+  spb = nth 0 rho (f0 (SO E)) /\
+  fsub (SO E) (z_s_cap E z) (fmul (SO E) spb (z_chal E z)) = nth 1 rho (f0 (SO E)) /\
+  unblind E (z_chal E z) (z_m_cap E z) cms = sub rho 2 (length cms + 2)).
+Print Assumptions C07_commit_blinding_recompute.
+
+Theorem C07_reuse_extracts_e :
+  forall (E : env) (LW : Laws E) ir ir' ch ch' e rho um p p',
+  proof_finalize E ir ch e rho um = Ok p -> proof_finalize E ir' ch' e rho um = Ok p' ->
+  length rho = (5 + length um)%nat -> ch <> ch' ->
+  e = fdiv (SO E) (fsub (SO E) (p_e_cap E p) (p_e_cap E p')) (fsub (SO E) ch ch').
+Proof. exact reuse_extracts_e. Qed.
+Check (C07_reuse_extracts_e :
+  forall (E : env) (LW : Laws E) ir ir' ch ch' e rho um p p',
+  proof_finalize E ir ch e rho um = Ok p -> proof_finalize E ir' ch' e rho um = Ok p' ->
+  length rho = (5 + length um)%nat -> ch <> ch' ->
+  e = fdiv (SO E) (fsub (SO E) (p_e_cap E p) (p_e_cap E p')) (fsub (SO E) ch ch')).
+Print Assumptions C07_reuse_extracts_e.
+
+Theorem C07_reuse_extracts_message :
+  forall (E : env) (LW : Laws E) ir ir' ch ch' e rho um p p' j,
+  proof_finalize E ir ch e rho um = Ok p -> proof_finalize E ir' ch' e rho um = Ok p' ->
+  length rho = (5 + length um)%nat -> ch <> ch' -> (j < length um)%nat ->
+  nth j um (f0 (SO E)) =
+  fdiv (SO E) (fsub (SO E) (nth j (p_m_cap E p) (f0 (SO E))) (nth j (p_m_cap E p') (f0 (SO E)))) (fsub (SO E) ch ch').
+Proof. exact reuse_extracts_message. Qed.
+Check (C07_reuse_extracts_message :
+  forall (E : env) (LW : Laws E) ir ir' ch ch' e rho um p p' j,
+  proof_finalize E ir ch e rho um = Ok p -> proof_finalize E ir' ch' e rho um = Ok p' ->
+  length rho = (5 + length um)%nat -> ch <> ch' -> (j < length um)%nat ->
+  nth j um (f0 (SO E)) =
+  fdiv (SO E) (fsub (SO E) (nth j (p_m_cap E p) (f0 (SO E))) (nth j (p_m_cap E p') (f0 (SO E)))) (fsub (SO E) ch ch')).
+Print Assumptions C07_reuse_extracts_message.
